@@ -16,3 +16,4 @@ with mp.Pool(8) as p:
     p.map(astdb.load_tu_quiet, tus)
 print('AST cache warmed for', len(tus), 'translation units')
 PY
+PYTHONHASHSEED=0 python3-vt engine/selftest.py | tail -1
